@@ -1,5 +1,6 @@
 import Tickit.Model.WinFlush
 import Tickit.Model.WinSpec
+import Tickit.Model.VT
 import Tickit.Driver.Common
 /-
   Engine `win` (C01, C02).  Operations and observation format: see harness/win.c.
@@ -12,6 +13,13 @@ import Tickit.Driver.Common
          flush are pairwise disjoint, and every cell the flush changed was written by the window that owns it in the
          composition (the writer is identified by the foreground tag `id + 1` every window draws with) and lies in
          the damaged region (the rectangles handed to the root).
+  Third configuration (scroll oracle `x`): the terminal is the library's xterm driver writing to an output function.  The
+  harness prints no grid but the bytes the terminal was sent during each operation; they are interpreted here by the VT
+  reference interpreter of C09 (`Model/VT.lean`: glyph, background colour and reverse video of every cell) and the screen
+  it arrives at is *the implementation's grid* for every clause above (cells compared on glyph, background and reverse
+  video; the writer tag is the background colour `id + 1`).  The model cannot print bytes: its observation repeats the
+  `X=` token, the model's screen is re-synchronised with the interpreted screen after every operation, and at a flush the
+  screen the bytes produce must be the previous screen overlaid with the model's flushed render buffer.
   Two clauses keep state of their own, fed only by the operation lines and the implementation's observations (never by
   the model state):
     z-order (C01, also run for C02)  an abstract child list per window: the implementation's lists as observed after the
@@ -54,8 +62,14 @@ inductive Instr where
   | text (rel : Bool) (l c : Int) (s : List Nat)
   | char (rel : Bool) (l c : Int) (cp : Nat)
   | clear
-  | setpen (bg : Option Int) (b : Option Bool)
+  | setpen (bg : Option Int) (b : Option Bool) (rv : Option Bool)
   | xlate (d r : Int)
+  | hline (rel : Bool) (line c0 c1 : Int) (style caps : Int)
+  | vline (rel : Bool) (l0 l1 col : Int) (style caps : Int)
+  | copy (move : Bool) (dt dl st sl n k : Int)
+  | save
+  | savepen
+  | restore
   /-- `tickit_window_expose` from inside the handler: of window `id` (whole window or a literal rectangle), or of the
       handler's own window with a rectangle relative to the handed one -/
   | exposeWin (id : Nat) (r : Option Rect)
@@ -88,6 +102,14 @@ def parseInstr (tok : String) : Option Instr :=
   match tok.splitOn ":" with
   | ["P"] => some .paint
   | ["K"] => some .clear
+  | ["V"] => some .save
+  | ["v"] => some .savepen
+  | ["R"] => some .restore
+  | [k, a, b, c, d, e, f] =>
+    match ints? [a, b, c, d, e, f] with
+    | some [a, b, c, d, e, f] =>
+      if k = "Y" then some (.copy false a b c d e f) else if k = "M" then some (.copy true a b c d e f) else none
+    | _ => none
   | [k, a, b, c, d] =>
     match ints? [a, b, c, d] with
     | some [a, b, c, d] =>
@@ -101,6 +123,12 @@ def parseInstr (tok : String) : Option Instr :=
     match i.toNat?, ints? [a, b, c, d] with
     | some i, some [a, b, c, d] => some (.exposeWin i (some ⟨a, b, c, d⟩))
     | _, _ => none
+  | [k, a, b, c, d, e] =>
+    match ints? [a, b, c, d, e] with
+    | some [a, b, c, d, e] =>
+      if k = "H" ∨ k = "h" then some (.hline (k = "h") a b c d e)
+      else if k = "I" ∨ k = "i" then some (.vline (k = "i") a b c d e) else none
+    | _ => none
   | [k, a, b, c] =>
     if k = "T" ∨ k = "t" then
       match ints? [a, b], hexBytes? c with
@@ -110,11 +138,15 @@ def parseInstr (tok : String) : Option Instr :=
       match ints? [a, b, c] with
       | some [l, cc, cp] => some (.char (k = "c") l cc cp.toNat)
       | _ => none
+    else if k = "N" then
+      match field? a, field? b, field? c with
+      | some bg, some bo, some rv => some (.setpen bg (bo.map (· ≠ 0)) (rv.map (· ≠ 0)))
+      | _, _, _ => none
     else none
   | [k, a, b] =>
     if k = "N" then
       match field? a, field? b with
-      | some bg, some bo => some (.setpen bg (bo.map (· ≠ 0)))
+      | some bg, some bo => some (.setpen bg (bo.map (· ≠ 0)) none)
       | _, _ => none
     else if k = "X" then
       match ints? [a, b] with
@@ -164,7 +196,14 @@ def paintProg (glyph : Int → Int → Nat) (rect : Rect) : List DrawOp :=
       (lineRuns (glyph line) rect.left rect.cols.toNat).map fun (s, gs) =>
         DrawOp.textAt line s (gs.flatMap fun g => if g ≥ 1000 then [g % 1000, 0x301] else [g])
 
-def instrOps (id : Nat) (glyph : Int → Int → Nat) (rect : Rect) : Instr → List DrawOp
+/-- Every cell of `src` (buffer coordinates) belongs to window `id` in the composition of `t`: a handler copies cells of
+    its own window only (the harness does not call `copyrect` / `moverect` otherwise). -/
+def ownsAll (t : Tree) (id : Nat) (src : Rect) : Bool :=
+  decide (0 < src.lines) && decide (src.lines ≤ 64) && decide (0 < src.cols) && decide (src.cols ≤ 256) &&
+  (List.range src.lines.toNat).all fun (i : Nat) => (List.range src.cols.toNat).all fun (j : Nat) =>
+    (WinSpec.ownerAt t (src.top + (i : Int)) (src.left + (j : Int))).map (·.1) == some id
+
+def instrOps (t : Tree) (id : Nat) (glyph : Int → Int → Nat) (rect : Rect) : Instr → List DrawOp
   | .paint => paintProg glyph rect
   | .erase rel a b c d =>
     [.eraseRect (if rel then ⟨rect.top + a, rect.left + b, rect.lines + c, rect.cols + d⟩ else ⟨a, b, c, d⟩)]
@@ -174,8 +213,24 @@ def instrOps (id : Nat) (glyph : Int → Int → Nat) (rect : Rect) : Instr → 
   | .text rel l c s => [.textAt (if rel then rect.top + l else l) (if rel then rect.left + c else c) s]
   | .char rel l c cp => [.charAt (if rel then rect.top + l else l) (if rel then rect.left + c else c) cp]
   | .clear => [.clear]
-  | .setpen bg b => [.setPen { fg := some ((id : Int) + 1), bg := bg, b := b }]
+  | .setpen bg b rv => [.setPen { fg := some ((id : Int) + 1), bg := bg, b := b, rv := rv }]
   | .xlate d r => [.translate d r]
+  | .hline rel l c0 c1 st caps =>
+    if 1 ≤ st ∧ st ≤ 3 ∧ 0 ≤ caps ∧ caps ≤ 3 then
+      [.hline (if rel then rect.top + l else l) (if rel then rect.left + c0 else c0) (if rel then rect.left + c1 else c1)
+        st.toNat caps.toNat]
+    else []
+  | .vline rel l0 l1 c st caps =>
+    if 1 ≤ st ∧ st ≤ 3 ∧ 0 ≤ caps ∧ caps ≤ 3 then
+      [.vline (if rel then rect.top + l0 else l0) (if rel then rect.top + l1 else l1) (if rel then rect.left + c else c)
+        st.toNat caps.toNat]
+    else []
+  | .copy mv dt dl st sl n k =>
+    if !ownsAll t id ⟨st, sl, n, k⟩ then []
+    else if mv then [.moveRect ⟨dt, dl, n, k⟩ ⟨st, sl, n, k⟩] else [.copyRect ⟨dt, dl, n, k⟩ ⟨st, sl, n, k⟩]
+  | .save => [.save]
+  | .savepen => [.savepen]
+  | .restore => [.restore]
   | .exposeWin _ _ => []
   | .exposeOwn _ _ _ _ => []
 
@@ -186,7 +241,8 @@ structure DSt where
   st : Option St := none
   dead : Option String := none          -- the model reached undefined behaviour
   scr : Tab := {}
-  mode : Nat := 0                        -- 0 accept, 1 partial, 2 refuse, 3 the library's mock terminal (its rule = partial)
+  mode : Nat := 0                        -- 0 accept, 1 partial, 2 refuse, 3 the library's mock terminal (its rule = partial), 4 the xterm driver
+  vt : Option VT.VTState := none         -- mode 4: the reference terminal the implementation's bytes are interpreted on
   behs : Array (Option (List Instr)) := #[]
   shifts : Array (List (Rect × Int × Int)) := #[]
   closed : Array Bool := #[]
@@ -199,12 +255,13 @@ structure DSt where
   dmg : List Rect := []                              -- abstract damage since the previous flush, root coordinates
 deriving Inhabited
 
-def mkBeh (behs : Array (Option (List Instr))) (shifts : Array (List (Rect × Int × Int))) : Id → Rect → List DrawOp :=
+/-- `t`: the tree the handlers run in (the queued restack requests applied). -/
+def mkBeh (behs : Array (Option (List Instr))) (shifts : Array (List (Rect × Int × Int))) (t : Tree) : Id → Rect → List DrawOp :=
   fun id rect =>
     let glyph := glyphAt id (shifts.getD id [])
     match (behs.getD id none) with
     | none => paintProg glyph rect
-    | some prog => prog.flatMap (instrOps id glyph rect)
+    | some prog => prog.flatMap (instrOps t id glyph rect)
 
 /-- The exposes a window's handler makes (targets that do not exist or are closed are skipped, as in the harness). -/
 def mkBehExp (behs : Array (Option (List Instr))) (closed : Array Bool) : Id → Rect → List (Id × Option Rect) :=
@@ -219,6 +276,12 @@ def mkBehExp (behs : Array (Option (List Instr))) (closed : Array Bool) : Id →
 def oracleOf (mode : Nat) : Oracle := fun tl tc rect d r =>
   if mode = 0 then true
   else if mode = 2 then false
+  else if mode = 4 then
+    -- scrollrect of src/termdriver-xterm.c without the DECSLRM capability (the start-up probe is never answered)
+    if d = 0 ∧ r = 0 then true
+    else if rect.right = tc ∧ d = 0 then true                                  -- ICH / DCH on every line
+    else if rect.left = 0 ∧ rect.cols = tc ∧ r = 0 then decide (rect.lines ≥ 2)   -- DECSTBM + IL / DL
+    else false
   else
     if d = 0 ∧ r = 0 then true
     else if rect.top < 0 ∨ rect.left < 0 ∨ rect.bottom > tl ∨ rect.right > tc then false
@@ -230,13 +293,16 @@ def oracleOf (mode : Nat) : Oracle := fun tl tc rect d r =>
 
 def glyphChars (g : Nat) : List Char :=
   if g = 32 then ['.', '~'] else if g = 0 then ['}', '}'] else if 33 ≤ g ∧ g ≤ 122 then ['.', Char.ofNat g]
-  else if 0xff01 ≤ g ∧ g ≤ 0xff5e then ['W', Char.ofNat (g - 0xfee0)] else ['{', '{']
+  else if 0xff01 ≤ g ∧ g ≤ 0xff5e then ['W', Char.ofNat (g - 0xfee0)]
+  else if 0x2500 ≤ g ∧ g ≤ 0x257f then
+    [Char.ofNat (98 + (g - 0x2500) / 16), "0123456789abcdef".toList.getD (g % 16) '0']
+  else ['{', '{']
 
 def colourChar (v : Int) : Char :=
   if -1 ≤ v ∧ v ≤ 40 then Char.ofNat (48 + (v + 1).toNat) else '!'
 
 def cellChars (x : Cell) : List Char :=
-  glyphChars x.glyph ++ [colourChar x.fg, colourChar x.bg, if x.b then '1' else '0']
+  glyphChars x.glyph ++ [colourChar x.fg, colourChar x.bg, Char.ofNat (48 + (if x.b then 1 else 0) + (if x.rv then 2 else 0))]
 
 def showGrid (t : Tab) : String :=
   "|".intercalate ((List.range t.lines).map fun (l : Nat) =>
@@ -267,14 +333,22 @@ structure ImplObs where
   tree : Tree
   evs : List Ev
   grid : Option (Array (Array Cell))
+  xtok : Option String := none            -- mode 4: the `X=` token (hex bytes)
+  wtok : Option String := none            -- C02: the `W=` token (the buffer cells every handler invocation changed)
+
+def hexVal (ch : Char) : Nat :=
+  if '0' ≤ ch ∧ ch ≤ '9' then ch.toNat - 48 else if 'a' ≤ ch ∧ ch ≤ 'f' then ch.toNat - 87 else 0
 
 def charGlyph (k ch : Char) : Nat :=
-  if k = '}' then 0 else if k = 'W' then ch.toNat + 0xfee0 else if k = '{' then 0xfffd else if ch = '~' then 32 else ch.toNat
+  if k = '}' then 0 else if k = 'W' then ch.toNat + 0xfee0 else if k = '{' then 0xfffd
+  else if 'b' ≤ k ∧ k ≤ 'i' then 0x2500 + (k.toNat - 98) * 16 + hexVal ch
+  else if ch = '~' then 32 else ch.toNat
 
 def parseRow (s : String) : Array Cell :=
   let rec go : List Char → Array Cell → Array Cell
     | k :: g :: f :: b :: o :: rest, acc =>
-      go rest (acc.push { glyph := charGlyph k g, fg := (f.toNat : Int) - 49, bg := (b.toNat : Int) - 49, b := o = '1' })
+      go rest (acc.push { glyph := charGlyph k g, fg := (f.toNat : Int) - 49, bg := (b.toNat : Int) - 49,
+                          b := o = '1' ∨ o = '3', rv := o = '2' ∨ o = '3' })
     | _, acc => acc
   go s.toList #[]
 
@@ -304,13 +378,54 @@ def parseTree (s : String) : Tree :=
   { wins := wins.toArray }
 
 def parseImpl (line : String) : Option ImplObs :=
-  match toks line with
-  | [r, t, e, g] =>
+  let core (r t e g : String) (x : Option String) : Option ImplObs :=
     if r.startsWith "r=" ∧ t.startsWith "T=" ∧ e.startsWith "E=" ∧ g.startsWith "G=" then
       some { ret := ((r.drop 2).toString.toNat?).getD 0, tree := parseTree (t.drop 2).toString,
-             evs := parseEvents (e.drop 2).toString, grid := parseGrid (g.drop 2).toString }
+             evs := parseEvents (e.drop 2).toString, grid := parseGrid (g.drop 2).toString, xtok := x }
+    else none
+  match toks line with
+  | r :: t :: e :: g :: rest =>
+    if rest.all (fun x => x.startsWith "X=" ∨ x.startsWith "W=") ∧ rest.length ≤ 2 then
+      (core r t e g ((rest.find? (·.startsWith "X=")).map fun x => (x.drop 2).toString)).map fun o =>
+        { o with wtok := (rest.find? (·.startsWith "W=")).map fun x => (x.drop 2).toString }
     else none
   | _ => none
+
+/-- The `W=` token: per handler invocation the window and the runs `(line, col, len)` of buffer cells it changed. -/
+def parseWrites (s : String) : Option (List (Nat × List (Int × Int × Int))) :=
+  if s = "-" then some [] else
+  (s.splitOn ";").mapM fun (e : String) =>
+    match e.splitOn "@" with
+    | [id, runs] =>
+      match id.toNat? with
+      | none => none
+      | some id =>
+        if runs = "-" then some (id, [])
+        else ((runs.splitOn ",").mapM fun (r : String) =>
+          match ints? (r.splitOn ".") with
+          | some [l, c, n] => some (l, c, n)
+          | _ => none).map fun rs => (id, rs)
+    | _ => none
+
+/-! ### the xterm configuration: bytes → screen -/
+
+/-- Interpret bytes on the reference terminal, re-tabulating the screen every 256 bytes (speed only). -/
+def vtFeed (vt : VT.VTState) (bytes : List UInt8) : VT.VTState :=
+  let rec go (fuel : Nat) (vt : VT.VTState) (bs : List UInt8) : VT.VTState :=
+    match fuel with
+    | 0 => vt
+    | fuel + 1 => if bs.isEmpty then vt else go fuel (VT.run (bs.take 256) vt).compact (bs.drop 256)
+  go (bytes.length / 256 + 2) vt bytes
+
+/-- A cell of the reference terminal as a grid cell: it knows glyph, background and reverse video only. -/
+def cellOfVT (x : VT.Cell) : Cell := { glyph := x.glyph, fg := -1, bg := x.bg, b := false, rv := x.rv }
+
+def gridOfVT (vt : VT.VTState) : Array (Array Cell) :=
+  Array.ofFn (n := vt.lines.toNat) fun l => Array.ofFn (n := vt.cols.toNat) fun c => cellOfVT (vt.grid (l.val : Int) (c.val : Int))
+
+/-- Equality of what two cells show; in the xterm configuration on glyph, background and reverse video. -/
+def sameCell (x : Bool) (a b : Cell) : Bool :=
+  if x then a.glyph == b.glyph && a.bg == b.bg && a.rv == b.rv else decide (a = b)
 
 /-! ### specification -/
 
@@ -338,7 +453,7 @@ def specC01 (d : DSt) (pens : Array (Option Pen)) (o : ImplObs) : String :=
         | none => none
         | some want =>
           let got := (g.getD l #[]).getD c Cell.never
-          if got = want then none
+          if sameCell (d.mode = 4) got want then none
           else some s!"cell ({l},{c}) shows {String.ofList (cellChars got)}, the composition says {String.ofList (cellChars want)} (window {((WinSpec.ownerAt t (l : Int) (c : Int)).map (·.1)).getD 0})"
     bad.getD ""
 
@@ -374,7 +489,7 @@ def specC02 (d : DSt) (o : ImplObs) : String :=
             let was := (pg.getD l #[]).getD c Cell.never
             if got = was then none
             else
-              let writer : Int := got.fg - 1
+              let writer : Int := (if d.mode = 4 then got.bg else got.fg) - 1
               let own := (WinSpec.ownerAt t (l : Int) (c : Int)).map (·.1)
               if !(damaged.any (·.memb (l : Int) (c : Int))) then some s!"cell ({l},{c}) changed outside the damaged region"
               else if own.map (fun (x : Nat) => (x : Int)) ≠ some writer then
@@ -382,6 +497,32 @@ def specC02 (d : DSt) (o : ImplObs) : String :=
               else none
         bad.getD ""
       | _, _ => ""
+
+/-- C02, the clause itself, on what every handler invocation changed in the render buffer (`W=`: read from the raw state
+    of the buffer before and after the handler ran): "whatever an expose handler draws, the only cells that can change are
+    cells inside the damaged region that belong to that window in the composition".  `dmg`: the abstract damage region. -/
+def specWriters (dmg : List Rect) (o : ImplObs) : String :=
+  match o.wtok with
+  | none => "no W= token in the observation of a flush (C02)"
+  | some w =>
+    match parseWrites w with
+    | none => "malformed W= token"
+    | some ws =>
+      let t := o.tree
+      if ws.map (·.1) ≠ o.evs.map (·.1) then "the W= token does not list the handler invocations of the E= token"
+      else
+        let damaged := (o.evs.filter (·.1 = 0)).map (·.2)
+        let bad := ws.findSome? fun (id, runs) =>
+          runs.findSome? fun (l, c0, n) =>
+            (List.range n.toNat).findSome? fun (j : Nat) =>
+              let c := c0 + (j : Int)
+              let own := (WinSpec.ownerAt t l c).map (·.1)
+              if own ≠ some id then
+                some s!"the expose handler of window {id} changed render-buffer cell ({l},{c}), which belongs to {match own with | some x => toString x | none => "nobody"}"
+              else if !(damaged.any (·.memb l c)) ∨ !(dmg.any (·.memb l c)) then
+                some s!"the expose handler of window {id} changed render-buffer cell ({l},{c}) outside the damaged region"
+              else none
+        bad.getD ""
 
 /-- Does the region `reg` of window `id` (in its own coordinates) stick out of some ancestor's bounds? -/
 def sticksOut (t : Tree) : Nat → Id → Rect → Bool
@@ -661,10 +802,14 @@ def parsePen (tok : String) : Option Pen :=
     match field? f, field? b, field? o with
     | some f, some b, some o => some { fg := f, bg := b, b := o.map (· ≠ 0) }
     | _, _, _ => some {}
+  | [f, b, o, r] =>
+    match field? f, field? b, field? o, field? r with
+    | some f, some b, some o, some r => some { fg := f, bg := b, b := o.map (· ≠ 0), rv := r.map (· ≠ 0) }
+    | _, _, _, _ => some {}
   | _ => some {}
 
 def modeOf (s : String) : Nat :=
-  if s.startsWith "a" then 0 else if s.startsWith "p" then 1 else if s.startsWith "m" then 3 else 2
+  if s.startsWith "a" then 0 else if s.startsWith "p" then 1 else if s.startsWith "m" then 3 else if s.startsWith "x" then 4 else 2
 
 /-- Re-tabulate the screen and store the state. -/
 def commit (d : DSt) (st : St) : DSt :=
@@ -673,7 +818,7 @@ def commit (d : DSt) (st : St) : DSt :=
 
 def finishOk (d : DSt) (st : St) (ret : Nat) (evs : Option (List Ev)) (grid : Bool) : DSt × String :=
   let d := commit d st
-  (d, showObs ret st.tree evs (if grid then some d.scr else none))
+  (d, showObs ret st.tree evs (if grid ∧ d.mode ≠ 4 then some d.scr else none))
 
 def fail (d : DSt) (what : String) : DSt × String :=
   ({ d with dead := some what, st := none }, s!"ub:{what}")
@@ -683,7 +828,7 @@ def runOp (d : DSt) (ts : List String) : DSt × String :=
   | ["new", prop, lines, cols, mode, pen] =>
     match ints? [lines, cols] with
     | some [l, c] =>
-      if l < 1 ∨ c < 1 ∨ l > 64 ∨ c > 120 then (d, "bad-op") else
+      if l < 1 ∨ c < 1 ∨ l > 64 ∨ c > 200 then (d, "bad-op") else
       let st := St.init l c (parsePen pen)
       let d : DSt := { prop := if prop = "C02" then 2 else 1, mode := modeOf mode, behs := #[none], shifts := #[[]], closed := #[false] }
       finishOk d st 0 none true
@@ -716,18 +861,19 @@ def runOp (d : DSt) (ts : List String) : DSt × String :=
         finishOk { d with behs := d.behs.setIfInBounds id p } st 0 none false
       | none => (d, "bad-op")
     | ["flush"] =>
-      match flushX (mkBeh d.behs d.shifts) (mkBehExp d.behs d.closed) st with
+      let t' := match flushQueue st with | .ok t => t | .ub _ => st.tree
+      match flushX (mkBeh d.behs d.shifts t') (mkBehExp d.behs d.closed) st with
       | .ub w => fail d w
       | .ok (st, shots) => finishOk d st 0 (some (shots.map Shot.ev)) true
     | ["resize", lines, cols] =>
       match ints? [lines, cols] with
       | some [l, c] =>
-        if l < 1 ∨ c < 1 ∨ l > 64 ∨ c > 120 ∨ d.mode = 3 then (d, "bad-op") else
+        if l < 1 ∨ c < 1 ∨ l > 64 ∨ c > 200 ∨ d.mode = 3 then (d, "bad-op") else
         match termResize st l c with
         | .ub w => fail d w
         | .ok st => finishOk d st 0 none true
       | _ => (d, "bad-op")
-    | ["scrollmode", m] => if d.mode = 3 then (d, "bad-op") else finishOk { d with mode := modeOf m } st 0 none false
+    | ["scrollmode", m] => if d.mode = 3 ∨ d.mode = 4 then (d, "bad-op") else finishOk { d with mode := modeOf m } st 0 none false
     | op :: idS :: rest =>
       match idS.toNat? with
       | none => (d, "bad-op")
@@ -807,6 +953,17 @@ def runOp (d : DSt) (ts : List String) : DSt × String :=
         | _, _ => (d, "bad-op")
     | _ => (d, "bad-op")
 
+/-- The terminal-to-screen difference at a flush in the xterm configuration: the screen the bytes produce must be the
+    model's screen (the previous interpreted screen overlaid with the model's flushed render buffer). -/
+def specBytes (model : Tab) (g : Array (Array Cell)) : String :=
+  let bad := (List.range g.size).findSome? fun (l : Nat) =>
+    (List.range (g.getD l #[]).size).findSome? fun (c : Nat) =>
+      let got := (g.getD l #[]).getD c Cell.never
+      let want := model.get (l : Int) (c : Int)
+      if sameCell true got want then none
+      else some s!"after the bytes of this flush (VT interpreter) terminal cell ({l},{c}) shows glyph {got.glyph} bg {got.bg} rv {got.rv}; the flushed render buffer over the previous screen gives glyph {want.glyph} bg {want.bg} rv {want.rv}"
+  bad.getD ""
+
 def step (d : DSt) (ts : List String) (impl : String) : DSt × String × String :=
   let isFlush := ts = ["flush"]
   let isNew := ts.head? = some "new"
@@ -814,6 +971,27 @@ def step (d : DSt) (ts : List String) (impl : String) : DSt × String × String 
   let (d', m) := runOp d ts
   let pens' : Array (Option Pen) := match d'.st with | some st => st.pens | none => pens
   let o := parseImpl impl
+  -- the xterm configuration: interpret the bytes; the screen they produce is the implementation's grid
+  let xm := d'.mode = 4
+  let vt' : Option VT.VTState :=
+    if !xm then none else
+    match o, d'.st with
+    | some o, some st =>
+      let vt0 : VT.VTState :=
+        if isNew then VT.VTState.init st.tlines st.tcols (fun _ _ => ⟨32, -1, false⟩)
+        else match d.vt with
+          | some vt => if vt.lines = st.tlines ∧ vt.cols = st.tcols then vt else vt.resize st.tlines st.tcols (fun _ _ => ⟨32, -1, false⟩)
+          | none => VT.VTState.init st.tlines st.tcols (fun _ _ => ⟨32, -1, false⟩)
+      some (vtFeed vt0 ((o.xtok.bind hexBytes?).getD [])).compact
+    | _, _ => d.vt
+  let o : Option ImplObs := match o, vt' with
+    | some o, some vt => if xm then some { o with grid := some (gridOfVT vt) } else some o
+    | o, _ => o
+  -- what the model does not predict is repeated from the implementation's observation: the cells every handler changed
+  -- (C02, at a flush) and the bytes sent to the terminal (xterm configuration)
+  let plain := m ≠ "bad-op" ∧ !(m.startsWith "ub:")
+  let m := if d'.prop = 2 ∧ isFlush ∧ plain then m ++ " W=" ++ ((o.bind (·.wtok)).getD "?") else m
+  let m := if xm ∧ plain then m ++ " X=" ++ ((o.bind (·.xtok)).getD "?") else m
   let sv : String :=
     match o with
     | none =>
@@ -821,7 +999,8 @@ def step (d : DSt) (ts : List String) (impl : String) : DSt × String × String 
       else if impl.startsWith "CRASH" then s!"the implementation did not complete the operation ({impl})"
       else "unparsable implementation observation"
     | some o =>
-      if !isFlush then ""
+      if xm ∧ (o.xtok.bind hexBytes?).isNone then "no (or malformed) X= bytes in an observation of the xterm configuration"
+      else if !isFlush then ""
       else
         -- the implementation's tree as observed just before this flush
         let pre := d.obsTree.getD o.tree
@@ -831,13 +1010,23 @@ def step (d : DSt) (ts : List String) (impl : String) : DSt × String × String 
             if m ≠ "" ∧ d'.unclipped then m ++ " [the history scrolled a region extending beyond an ancestor's bounds]" else m
           else
             let m := specC02 d o
-            if m ≠ "" then m else specDamage d (flushDamage pre d.zReqs ++ d.dmg) o
+            let m := if m ≠ "" then m else specDamage d (flushDamage pre d.zReqs ++ d.dmg) o
+            if m ≠ "" then m else specWriters (flushDamage pre d.zReqs ++ d.dmg) o
+        let own := if own = "" ∧ xm then (match o.grid with | some g => specBytes d'.scr g | none => "") else own
         if own ≠ "" then own else specZOrder d pre o
   -- remember the implementation's grid for the next flush
   let d' := match o with
     | some o => (match o.grid with | some g => { d' with prevGrid := some g } | none => d')
     | none => d'
   let d' := if isNew then (match o with | some o => { d' with prevGrid := o.grid } | none => { d' with prevGrid := none }) else d'
+  -- the xterm configuration: the model's screen follows the interpreted screen
+  let d' := if xm then
+      (match vt', d'.st with
+       | some vt, some st =>
+         let scr := Tab.ofFn st.tlines.toNat st.tcols.toNat (fun l c => cellOfVT (vt.grid l c))
+         { d' with vt := some vt, scr := scr, st := some { st with screen := scr.get } }
+       | _, _ => { d' with vt := vt' })
+    else d'
   -- the specification state: from the operation line and the implementation's observations
   let d' := match o with
     | none => d'
